@@ -41,7 +41,7 @@ def step (s : St) (ws : List String) : St × String :=
   match ws with
   | "persist" :: opts =>
     match persist n (txNames ((parseKV opts "txs").getD "")) (parseCounter ((parseKV opts "counter").getD "")) with
-    | some (n', b) => ({ n := some n' }, s!"ok h={b.height} hash={b.hash}")
+    | some (n', b) => ({ n := some n' }, s!"ok h={b.height} hash={b.hash} writes=s{Bxh.Ledger.commitWrites n.st b.height}/c1")
     | none => (s, "PANIC append-out-of-order")
   | ["getblock", h] => (s, showBlk (getBlock n (h.toNat?.getD 0) false))
   | ["getblock", h, "full"] => (s, showBlk (getBlock n (h.toNat?.getD 0) true))
@@ -73,9 +73,17 @@ def step (s : St) (ws : List String) : St × String :=
     | .error .stateHigher => ({ n := none }, "err open higher")
     | .error .noJournalAtOpen => ({ n := none }, "err open nojournal-at-open")
     | .error _ => ({ n := none }, "err open other")
-  | "crash" :: opts =>
+  | op :: opts =>
+    if op != "crash" && op != "crashw" then (s, "bad-op") else
     let g (k : String) := (parseKV opts k).getD "0"
-    let m : Mask := { s := g "S" == "1", j := g "J" == "1", c := g "C" == "1", b := (g "B").toNat?.getD 0 }
+    -- `crashw`: the process dies after the ks-th low-level write to the state store and the kc-th to the chain index.  The
+    -- modelled persist performs: state store = one batch (accounts, storage, code, journal, maxHeight), then above height 10
+    -- one pruning batch; chain index = one batch.
+    let ks := (g "ks").toNat?.getD 0
+    let kc := (g "kc").toNat?.getD 0
+    let m : Mask :=
+      if op == "crash" then { s := g "S" == "1", j := g "J" == "1", c := g "C" == "1", b := (g "B").toNat?.getD 0 }
+      else { s := ks ≥ 1, j := if n.cmeta.1 + 1 > 10 then ks ≥ 2 else ks ≥ 1, c := kc ≥ 1, b := (g "B").toNat?.getD 0 }
     match persist n (txNames ((parseKV opts "txs").getD "")) (parseCounter ((parseKV opts "counter").getD "")) with
     | none => (s, "PANIC append-out-of-order")
     | some (after, b) =>
@@ -95,7 +103,8 @@ def step (s : St) (ws : List String) : St × String :=
       | .error _ => ({ n := none }, s!"h={b.height} open-error other")
       | .ok n' =>
         let head := if n'.cmeta.1 > 0 then (if (getBlock n' n'.cmeta.1 true).isSome then "readable" else "unreadable") else "readable"
-        ({ n := some n' }, s!"h={b.height} opened chain={n'.cmeta.1} state={n'.st.maxJ} blockfile={n'.blocks} head={head}")
-  | _ => (s, "bad-op")
+        let sk := match (Bxh.Ledger.getState n'.st 0 "height").2 with | some v => v | none => "-"
+        ({ n := some n' }, s!"h={b.height} opened chain={n'.cmeta.1} state={n'.st.maxJ} blockfile={n'.blocks} head={head} statekey={sk}")
+  | [] => (s, "bad-op")
 
 end Driver.StoreEngine
